@@ -172,7 +172,7 @@ pub fn metadata_sweep(rep: &mut Report, thorough: bool) {
 
 pub fn scenarios(thorough: bool) -> Vec<Scenario> {
     let mut v = vec![];
-    v.push(pair_scenario("pair-arrays", if thorough { &[1, 2, 3, 6, 9] } else { &[2, 3, 9] }, if thorough { 6 } else { 5 },
+    v.push(pair_scenario("pair-arrays", if thorough { &[1, 2, 3, 6, 9] } else { &[2, 3, 9] }, if thorough { 7 } else { 6 },
         &[Op::Resolve(0, 0, 0), Op::Resolve(1, 0, 1), Op::Commit(0, 2), Op::Meld(0, 1), Op::Meld(1, 0), Op::Snapshot(0)]));
     v.push(pair_conflict_scenario("pair-conflict", 2, 3, if thorough { &[1, 8, 4] } else { &[1, 8] }, if thorough { 5 } else { 4 },
         &[Op::Resolve(1, 0, 0), Op::Resolve(1, 0, 1), Op::Commit(1, 1), Op::Meld(0, 1)]));
@@ -196,7 +196,7 @@ pub fn run(thorough: bool) {
         probes: vec![Arc::new(StorageMonitor)],
         pools: vec![1],
         time_budget_s: if thorough { 2400 } else { 40 },
-        max_states: if thorough { 300_000 } else { 8_000 },
+        max_states: if thorough { 300_000 } else { 40_000 },
         stop_on_violation: true,
     });
     metadata_sweep(&mut rep, thorough);
